@@ -246,6 +246,21 @@ fn strategy(kind: &'static str, max_tape: usize) -> impl Strategy<Value = RtCase
     })
 }
 
+/// the libFuzzer input format of target `roundtrip`: byte 0 selects the kind of value, the rest is the choice tape
+pub fn fuzz_case(data: &[u8]) -> Option<RtCase> {
+    const KINDS: [&str; 8] = ["pdu", "pdu", "pdu", "user_op", "tlv", "fs_response", "report", "header"];
+    if data.is_empty() {
+        return None;
+    }
+    Some(RtCase {
+        kind: KINDS[data[0] as usize % KINDS.len()].to_string(),
+        flags: 0,
+        ew: 1,
+        sw: 1,
+        tape: data[1..].to_vec(),
+    })
+}
+
 pub fn run(ctx: &mut Ctx) {
     ctx.rule = "values built from a generated choice tape inside the wire format's limits (strings/TLV bodies <= 255, segment metadata <= 63, \
 equal-width entity ids, sizes/offsets < 2^32 under the small flag, fault location iff error condition [Finished also without, as the implementation emits it], \
@@ -292,4 +307,11 @@ status reports, every filestore action x status. Non-trivial = the encoding diff
         ctx.drive_proptest(&part, strategy(kind, tape), n * scale, 3000);
     }
     ctx.section.clear();
+    if ctx.tier == Tier::Thorough {
+        let c = crate::fuzzrun::Campaign { target: "roundtrip", runs: 1_000_000, max_len: 500 };
+        crate::fuzzrun::campaign_into_ctx(ctx, &c, |bytes| match fuzz_case(bytes) {
+            Some(case) => (RtPart.run(&case).fail, serde_json::to_value(&case).unwrap(), "roundtrip"),
+            None => (None, serde_json::Value::Null, "roundtrip"),
+        });
+    }
 }
